@@ -7,7 +7,10 @@ share is `Arc<AppState>`, which nothing mutates after start-up (database, CDN de
 sequence number is the wall clock) — in the model: the fixed `Server` and `seqn` parameters.
 
 * `Ev`        what one socket's task can observe: bytes arrive, the peer (half-)closes, the read
-              timeout fires;
+              timeout fires; `accept` = the listener has accepted the socket and spawned its task
+              and NOTHING has arrived on it yet (a client that connects and stays silent): the
+              accept loop does no per-socket work before `tokio::spawn`, so this is not a step of
+              anything — the task sits in `read_line` with an empty buffer;
 * `connStep`  the task: `reading buf` = inside `read_line` with `buf` received so far (no LF in
               it), `done` = the task has returned; at most one `Out` is ever produced;
 * `srvStep` / `srvRun` the server over an arbitrary interleaving of the sockets' events: an event
@@ -22,6 +25,7 @@ namespace Cascette.Model.RibbitConn
 open Cascette.Model.Bpsv Cascette.Model.Ribbit
 
 inductive Ev
+  | accept
   | data (bs : List Nat)
   | eof
   | timeout
@@ -53,6 +57,8 @@ def answer (sh : Shared) (line : List Nat) : Out :=
 /-- one step of the task that owns a socket. -/
 def connStep (sh : Shared) : ConnSt → Ev → ConnSt × Option Out
   | .done, _ => (.done, none)
+  -- accepted, task spawned, zero bytes so far: the accept loop goes straight back to `accept()`
+  | .reading buf, .accept => (.reading buf, none)
   | .reading buf, .data bs =>
     if (buf ++ bs).contains 10 then (.done, some (answer sh (firstLine (buf ++ bs))))
     else (.reading (buf ++ bs), none)
